@@ -106,3 +106,60 @@ def obligations(repo):
         stores = [e for e in p.trace if e[0] == "store" and e[1].eq(SELF)]
         ob("Dataset.set_dispatch", f"writes-only-overloads#{i}", all(e[2] == "overloads" for e in stores) and len(stores) == 1, stores)
     return out, und
+
+
+def overload_decorator(repo):
+    """Dataset.overload(alias)(func): ONE dataset is built from a plain function (none when func already is a dataset), it is registered under EVERY alias
+    and it is what the decorator returns - so the implementations reached through different aliases share one cache and one effect list (C02, C07).
+    `dataset(func)` and `self.register` are used by contract here (each call of dataset() allocates a NEW dataset; register is proved above)."""
+    out, und = [], []
+    DS = repo.module("dataset").classes["Dataset"]
+
+    def ob(name, ok, detail=""):
+        out.append({"name": f"Dataset.overload:C07:{name}", "ok": bool(ok), "detail": str(detail)[:160], "group": "Dataset.overload:C07"})
+
+    def _mk(ex, vars):
+        d = vars.get("definition")
+        t = ex.fresh("newds", T.Ev)
+        ex.event("mkdataset", ex.as_val(d) if d is not None else None, t)
+        return Sym("ev", t, DS)
+
+    def _reg(ex, vars):
+        ex.event("register", ex.as_val(vars["key"]) if not isinstance(vars["key"], str) else vars["key"], ex.as_ev(vars["value"]))
+        return None
+    cfg = {"abstract_classes": (), "fn_contracts": {**FN_CONTRACTS, ("labrea.dataset", "DatasetFactory.__call__"): _mk, ("labrea.dataset", "Dataset.register"): _reg}}
+    FN = z3.Const("fn", T.Val)
+    for label, alias, n_alias, func_is_ds in (("two-aliases", PyList(["a", "b"]), 2, False), ("one-alias", "a", 1, False), ("symbolic-alias", Sym("val", z3.Const("alias", T.Val)), 1, False),
+                                             ("dataset-given", PyList(["a", "b"]), 2, True)):
+        def run(ex, alias=alias, func_is_ds=func_is_ds):
+            s = ex.sym_self(DS)
+            deco = ex.call(ex.getattr(s, "overload"), [alias], {})
+            f = Sym("ev", z3.Const("given", T.Ev), DS) if func_is_ds else Sym("val", FN)
+            if not func_is_ds:
+                ex.assume(z3.Not(T.isev(FN)))
+            return ex.call(deco, [f], {})
+        ps = explore(repo, run, tag="od", config=cfg)
+        u = sorted({p.value for p in ps if p.kind == "unsupported"})
+        if u:
+            und.append(("Dataset.overload", u))
+            continue
+        oks = [p for p in ps if p.kind == "ok"]
+        ob(f"{label}:some-path-returns", bool(oks))
+        for i, p in enumerate(oks):
+            evs = list(flat_events(p.trace))
+            mk = [e for e in evs if e[0] == "mkdataset"]
+            regs = [e for e in evs if e[0] == "register"]
+            ret = getattr(p.value, "term", None)
+            ob(f"{label}:builds-one-dataset#{i}", len(mk) == (0 if func_is_ds else 1), len(mk))
+            if label == "symbolic-alias":
+                # a non-list alias may itself be a list at run time: both shapes are paths; every registration uses the returned object
+                ob(f"{label}:every-registration-uses-the-returned-dataset#{i}", regs and all(ret is not None and r[2].eq(ret) for r in regs) or
+                   any(t[0] == "loop" for t in p.trace), [str(r[2]) for r in regs][:3])
+            else:
+                ob(f"{label}:registered-under-every-alias#{i}", len(regs) == n_alias, len(regs))
+                ob(f"{label}:every-registration-uses-the-returned-dataset#{i}", regs and all(ret is not None and r[2].eq(ret) for r in regs), [str(r[2]) for r in regs][:3])
+        for i, p in enumerate(ps):
+            if p.kind == "exc":
+                x = p.value
+                ob(f"{label}:rejects-only-a-dataset-without-dispatch#{i}", isinstance(x, Obj) and x.clsname == "ValueError" and not [e for e in flat_events(p.trace) if e[0] == "register"], repr(x))
+    return out, und
